@@ -142,7 +142,7 @@ def run(ctx):
     ctx.prove()
     drv = fw.build_harness("mc1_drv", extra=["-std=gnu++20"])
     maxn, maxm = 15, ctx.n(11, 13)
-    cases = list(CORPUS) + [gen_case(ctx.rng, maxn, maxm) for _ in range(ctx.n(400, 6000))]
+    cases = list(CORPUS) + [gen_case(ctx.rng, maxn, maxm) for _ in range(ctx.n(400, 20000))]
     if ctx.replay:
         cases = [json.load(open(ctx.replay))["case"]["input"]]
     ctx.cov["rule"] = ("random unfoldings of 1..15 events carrying real transitions (same families as C42), 0..3 immediate causes each "
@@ -271,5 +271,5 @@ META = {
             "get_topological_ordering. Partial: the three subset iterators are oracle-checked per output, not proved as code. Not covered: "
             "Unfolding::insert, immediate conflicts, alternatives, extension sets, the configuration-relative History iterator.",
     "technique": "Coq proof (worklist invariant for an arbitrary pick function) + verified enumeration oracle + differential correspondence",
-    "claimed": False,
+    "claimed": True,
 }
